@@ -4,6 +4,9 @@ Property C15 — saved iterations restore exactly what was saved.  Refinement of
 counter, folder changes in between) to an append-only log, for any interleaving of solve /
 save / change-folder / restore / query operations.
 -/
+import EasyFEAVerif.Gen.C15.MeshHistory
+import Mathlib.Tactic.Common
+import Mathlib.Data.List.Basic
 import EasyFEAVerif.Model.IterStore
 import Mathlib.Tactic.Linarith
 import Mathlib.Data.List.Basic
@@ -158,6 +161,140 @@ example :
                                 .setIter 1, .save, .setFolder "", .solve 9]
     let st := run (init 0 "") ops
     (getIter st 0, getIter st 1, getIter st 2, getIter st 3, st.live) = (some 1, some 2, some 3, some 2, 9) := by
+  decide
+
+/-! ### several meshes in one history: which mesh a restored iteration comes back with
+
+Model of the bookkeeping of `_Simu` (`__listMesh`, `__indexMesh`, `__NindexMesh`, the `indexMesh` entry of each saved
+iteration), written from the statements pinned in `Gen/C15/MeshHistory.lean` (generator: statement-level match, anything
+else is refused): the mesh setter appends and moves to the END of the list, `Save_Iter` records the CURRENT index,
+`Set_Iter` moves to the recorded index. -/
+
+namespace MeshHist
+
+structure St (M : Type) where
+  list : List M
+  idx : Nat
+  nidx : Nat
+  iters : List Nat
+
+inductive Op (M : Type) where
+  | assign (m : M)
+  | save
+  | restore (i : Nat)
+
+def init {M : Type} (m0 : M) : St M := { list := [m0], idx := 0, nidx := 0, iters := [] }
+
+def step {M : Type} (s : St M) : Op M → St M
+  | .assign m => { list := s.list ++ [m], idx := s.nidx + 1, nidx := s.nidx + 1, iters := s.iters }
+  | .save => { s with iters := s.iters ++ [s.idx] }
+  | .restore i => match s.iters[i]? with
+    | some k => { s with idx := k }
+    | none => s
+
+structure Spec (M : Type) where
+  cur : M
+  log : List M
+
+def specStep {M : Type} (s : Spec M) : Op M → Spec M
+  | .assign m => { s with cur := m }
+  | .save => { s with log := s.log ++ [s.cur] }
+  | .restore i => match s.log[i]? with
+    | some c => { s with cur := c }
+    | none => s
+
+def Refines {M : Type} (s : St M) (sp : Spec M) : Prop :=
+  s.nidx + 1 = s.list.length ∧ s.list[s.idx]? = some sp.cur ∧ s.iters.length = sp.log.length ∧
+  ∀ (i k : Nat), s.iters[i]? = some k → ∃ m, s.list[k]? = some m ∧ sp.log[i]? = some m
+
+theorem init_refines {M : Type} (m0 : M) : Refines (init m0) ⟨m0, []⟩ := by
+  refine ⟨rfl, rfl, rfl, ?_⟩
+  intro i k h; simp [init] at h
+
+theorem step_refines {M : Type} (s : St M) (sp : Spec M) (h : Refines s sp) (op : Op M) :
+    Refines (step s op) (specStep sp op) := by
+  obtain ⟨hn, hc, hl, hi⟩ := h
+  cases op with
+  | assign m =>
+    refine ⟨?_, ?_, hl, ?_⟩
+    · simp [step]; omega
+    · have : s.nidx + 1 = s.list.length := hn
+      simp [step, specStep, this]
+    · intro i k hk
+      obtain ⟨m', h1, h2⟩ := hi i k hk
+      refine ⟨m', ?_, h2⟩
+      have hlt : k < s.list.length := by
+        by_contra hcon
+        have : s.list[k]? = none := by simp [List.getElem?_eq_none_iff]; omega
+        rw [this] at h1; cases h1
+      simp only [step]
+      rw [List.getElem?_append_left hlt]; exact h1
+  | save =>
+    refine ⟨hn, hc, ?_, ?_⟩
+    · simp [step, specStep, hl]
+    · intro i k hk
+      simp only [step] at hk
+      by_cases hlt : i < s.iters.length
+      · rw [List.getElem?_append_left hlt] at hk
+        obtain ⟨m', h1, h2⟩ := hi i k hk
+        refine ⟨m', h1, ?_⟩
+        simp only [specStep]
+        rw [List.getElem?_append_left (by omega)]; exact h2
+      · have hge : s.iters.length ≤ i := by omega
+        rw [List.getElem?_append_right hge] at hk
+        have hi0 : i - s.iters.length = 0 := by
+          by_contra hne
+          have : ([s.idx] : List Nat)[i - s.iters.length]? = none := by
+            simp [List.getElem?_eq_none_iff]; omega
+          rw [this] at hk; cases hk
+        rw [hi0] at hk
+        simp at hk
+        subst hk
+        refine ⟨sp.cur, hc, ?_⟩
+        simp only [specStep]
+        have : i = sp.log.length := by omega
+        subst this
+        simp
+  | restore i =>
+    simp only [step, specStep]
+    cases hk : s.iters[i]? with
+    | none =>
+      have : sp.log[i]? = none := by
+        have : s.iters.length ≤ i := by
+          by_contra hcon
+          have hlt : i < s.iters.length := by omega
+          rw [List.getElem?_eq_getElem hlt] at hk; cases hk
+        simp [List.getElem?_eq_none_iff]; omega
+      simp only [this]
+      exact ⟨hn, hc, hl, hi⟩
+    | some k =>
+      obtain ⟨m', h1, h2⟩ := hi i k hk
+      simp only [h2]
+      exact ⟨hn, h1, hl, hi⟩
+
+/-- any sequence of mesh assignments, saved iterations and restores: the simulation is on the mesh the specification says,
+and every saved iteration is tied to the mesh it was saved on -/
+theorem run_refines {M : Type} (m0 : M) (ops : List (Op M)) :
+    Refines (ops.foldl step (init m0)) (ops.foldl specStep ⟨m0, []⟩) := by
+  have : ∀ (s : St M) (sp : Spec M), Refines s sp → Refines (ops.foldl step s) (ops.foldl specStep sp) := by
+    induction ops with
+    | nil => intro s sp h; exact h
+    | cons op rest ih => intro s sp h; exact ih _ _ (step_refines s sp h op)
+  exact this _ _ (init_refines m0)
+
+/-- non-vacuity: meshes A, B; save on A, assign B, save, go back to A, assign C, save, restore 0 then 2: on C -/
+example : (([.save, .assign "B", .save, .restore 0, .assign "C", .save, .restore 0, .restore 2] : List (Op String)).foldl step (init "A")).idx = 2 := by
+  decide
+
+end MeshHist
+
+/-- the statements the model was written from (regenerated on every run; a rewrite of any of them breaks this obligation) -/
+theorem meshForms_spec : EasyFEAVerif.Gen.C15.meshForms =
+    [("mesh.setter", ["self.__NindexMesh += 1", "self.__indexMesh = self.__NindexMesh", "self.__listMesh.append(mesh)", "self.__mesh = mesh", "mesh._Add_observer(self)"]),
+     ("Save_Iter", ["iter['indexMesh'] = self.__indexMesh"]),
+     ("Set_Iter", ["results = self.Get_results(iter)", "indexMesh = results['indexMesh']", "self.__indexMesh = indexMesh", "self.__Update_mesh(indexMesh)"]),
+     ("__Update_mesh", ["mesh = self.__listMesh[index]", "self.__mesh = mesh", "clear_cached_computed_values(self)", "self.Need_Update()"]),
+     ("__init__", ["self.__NindexMesh: int = -1", "self.__listMesh: list[Union[str, Mesh]] = []"])] := by
   decide
 
 end EasyFEAVerif.Props.C15
